@@ -678,12 +678,13 @@ def classify(case, obs):
     tree = case['tree']
     if 'crash' in obs or 'hang' in obs:
         return None
-    if obs.get('err') == 'EAttr' and any(v['k'] == 'int' for h in _reachable_holds(tree) for v in h['v'].values()):
-        return 'int-voltage'
     if case['kind'] == 'scale':
         if any(h[0] is None for h in case['hw'][:-1]):
             return 'unused-outputs-collapse'
         return None
+    if _has(tree, lambda x: x['t'] == 'hold' and any(v['k'] == 'aff' and all(F(c) == 0 for c in v['coefs'].values())
+                                                     for v in x['v'].values())):
+        return 'zero-factor-aliases-plain'
     if obs.get('err') == 'EAssert' and _same_key_two_depths(tree):
         return 'dep-key-shared-across-depths'
     if _has(tree, lambda x: x['t'] == 'remap' and _has(x['body'], lambda y: y['t'] == 'rep' and y['n'] > 0)):
